@@ -317,32 +317,53 @@ fn random_job(ctx: &Ctx, job: usize, iters: u64) -> Stats {
 /// pool of sampled elements (random b-bit values plus neighbours that differ in one high or low
 /// bit), the reference is a BTreeSet, and after every operation `contains` is asked for the whole
 /// pool. `universe()` is left out (its complement cannot be enumerated).
+/// Elements wider than a machine word: a user-defined element type (the trait is public).
+#[derive(Clone, Copy, Debug, PartialEq, Eq, PartialOrd, Ord)]
+pub struct Wide(pub u128);
+
+impl rsbdd::set::BDDCategorizable for Wide {
+    fn categorize(&self, c: usize) -> bool {
+        // same convention as the implementation for usize: true = bit c is 0
+        c >= 128 || (self.0 >> c) & 1 == 0
+    }
+}
+
 fn wide_job(ctx: &Ctx, job: usize, histories: u64) -> Stats {
     use std::collections::BTreeSet;
     let mut st = Stats::new();
     let mut rng = Rng::stream(ctx.seed, "C19.wide", job as u64);
     for h in 0..histories {
-        let bits = *rng.pick(&[31usize, 32, 33, 40, 48, 63, 64]);
-        let mask: u64 = if bits >= 64 { u64::MAX } else { (1u64 << bits) - 1 };
-        let mut pool: Vec<usize> = Vec::new();
+        let bits = *rng.pick(&[31usize, 32, 33, 40, 48, 63, 64, 64, 65, 66, 72, 96, 127, 128]);
+        // up to 64 bits the elements are usize (two histories in three) or the user-defined type
+        let user_type = bits > 64 || rng.chance(1, 3);
+        let mask: u128 = if bits >= 128 { u128::MAX } else { (1u128 << bits) - 1 };
+        let mut pool: Vec<u128> = Vec::new();
         for _ in 0..4 {
-            let x = rng.next() & mask;
-            pool.push(x as usize);
-            pool.push((x ^ (1u64 << rng.below(bits as u64))) as usize);
-            pool.push((x ^ (1u64 << (bits - 1))) as usize);
+            let x = (((rng.next() as u128) << 64) | rng.next() as u128) & mask;
+            pool.push(x);
+            pool.push(x ^ (1u128 << rng.below(bits as u64)));
+            pool.push(x ^ (1u128 << (bits - 1)));
+            if bits > 64 {
+                pool.push(x ^ (1u128 << 64)); // equal modulo 2^64
+                pool.push(x & (u64::MAX as u128));
+            }
         }
         pool.push(0);
-        pool.push(mask as usize);
+        pool.push(mask);
         pool.sort();
         pool.dedup();
         let len = 4 + rng.usize(20);
         let mut log: Vec<String> = Vec::new();
         st.evals += 1;
         st.bump("wide_set_histories");
+        if user_type {
+            st.bump("wide_set_histories_with_a_user_defined_element_type");
+        }
+        st.max("max_set_bits", bits as u64);
         let case = json!({"kind": "wide", "seed": ctx.seed, "job": job, "history": h});
         util::budget(50_000_000, 1000);
         let pool2 = pool.clone();
-        let mut ops: Vec<(u64, usize, usize, usize)> = Vec::new();
+        let mut ops: Vec<(u64, usize, usize, u128)> = Vec::new();
         for _ in 0..len {
             ops.push((rng.below(5), rng.usize(2), rng.usize(2), *rng.pick(&pool)));
         }
@@ -350,12 +371,16 @@ fn wide_job(ctx: &Ctx, job: usize, histories: u64) -> Stats {
         let observed = guarded(move || {
             let env = Rc::new(BDDEnv::new());
             let sets = [BDDSet::with_env(bits, &env), BDDSet::with_env(bits, &env)];
-            let mut refs: [BTreeSet<usize>; 2] = [BTreeSet::new(), BTreeSet::new()];
+            let mut refs: [BTreeSet<u128>; 2] = [BTreeSet::new(), BTreeSet::new()];
             let mut trace: Vec<String> = Vec::new();
             for (kind, w, o, x) in &ops2 {
                 match kind {
                     0 | 1 => {
-                        sets[*w].insert(*x);
+                        if user_type {
+                            sets[*w].insert(Wide(*x));
+                        } else {
+                            sets[*w].insert(*x as usize);
+                        }
                         refs[*w].insert(*x);
                         trace.push(format!("{}.insert({:#x})", ["A", "B"][*w], x));
                     }
@@ -380,7 +405,7 @@ fn wide_job(ctx: &Ctx, job: usize, histories: u64) -> Stats {
                 }
                 for s in 0..2 {
                     for e in &pool2 {
-                        let got = sets[s].contains(*e);
+                        let got = if user_type { sets[s].contains(Wide(*e)) } else { sets[s].contains(*e as usize) };
                         if got != refs[s].contains(e) {
                             return Err((trace.clone(), s, *e, got));
                         }
@@ -422,7 +447,7 @@ pub fn run(ctx: &Ctx) -> (Stats, Spec) {
         super::common::miri_tripwire(ctx, &mut st, 150);
     }
     let spec = Spec {
-        rule: "breadth-first over reference states: two sets sharing one environment, each (state pair, next operation) executed on fresh real sets via the shortest history reaching the state; then all memberships of both sets are read twice through contains() and the public bdd field is compared across the queries; plus histories on WIDE sets (b in {31, 32, 33, 40, 48, 63, 64}) over pools of sampled elements and their one-bit neighbours; plus random histories of length 5-64 [quick] / 5-504 [thorough] with b in 2..4. distinct = (state pair before the last operation, last operation, b); non-trivial = both sets neither empty nor the universe.".into(),
+        rule: "breadth-first over reference states: two sets sharing one environment, each (state pair, next operation) executed on fresh real sets via the shortest history reaching the state; then all memberships of both sets are read twice through contains() and the public bdd field is compared across the queries; plus histories on WIDE sets (b in {31, 32, 33, 40, 48, 63, 64} with usize elements or a user-defined element type, b in {65, 66, 72, 96, 127, 128} with a user-defined 128-bit element type) over pools of sampled elements, their one-bit neighbours and (b > 64) elements equal modulo 2^64; plus random histories of length 5-64 [quick] / 5-504 [thorough] with b in 2..4. distinct = (state pair before the last operation, last operation, b); non-trivial = both sets neither empty nor the universe.".into(),
         assumptions: vec![
             "only elements < 2^b are used (the statement speaks of b-bit integers)".into(),
             "`complement` is set difference, as the statement says".into(),
@@ -431,6 +456,7 @@ pub fn run(ctx: &Ctx) -> (Stats, Spec) {
         floors: vec![
             ("self_aliased_ops".into(), 100, "self-aliased operands never exercised".into()),
             ("wide_set_histories".into(), 200, "wide sets (b >= 31) never exercised".into()),
+            ("wide_set_histories_with_a_user_defined_element_type".into(), 50, "sets over a user-defined element type never exercised".into()),
             ("queries_as_last_op".into(), 500, "queries never exercised as last operation".into()),
             ("distinct_nontrivial".into(), 1_000, "too few non-trivial cases".into()),
         ],
